@@ -133,6 +133,7 @@ type World struct {
 	states  map[uint64]bool
 	fairR, fairW, fairWait int
 	udpLn *kernel.Sock
+	start time.Time
 }
 
 type simLogger struct{ w *World }
@@ -167,6 +168,7 @@ func (w *World) Failed() bool { return w.O.V != nil }
 func NewWorld(t *testing.T, o *common.Outcome, prop string, cfg EngCfg, kp kernel.Params, sched common.Sched) *World {
 	w := &World{T: t, O: o, Prop: prop, Cfg: cfg, byKey: map[string]*ConnState{}, byC: map[*nbio.Conn]*ConnState{}, states: map[uint64]bool{}}
 	ssync.PoolMode = sched.PoolMode
+	w.start = time.Now()
 	w.K = kernel.Install(kp)
 	logging.SetLogger(simLogger{w})
 	conf := nbio.Config{Name: "sim", Network: cfg.Network, NPoller: cfg.NPoller, ReadBufferSize: cfg.ReadBuf,
